@@ -7,6 +7,15 @@ import Rbgp.Enc.Proofs.NegAgree
 namespace Rbgp.Enc
 open Rbgp.Enc.Spec
 
+/-- entries of the model families are never judged by the Flow Specification framing clause -/
+theorem flowBad_ip (f : Fam) (v6 : Bool) (es : List Entry) (hes : ∀ e ∈ es, IpEntryOk v6 e) : flowBad f es = false := by
+  have : es.any entryFlowBad = false := by
+    rw [List.any_eq_false]
+    intro e he
+    obtain ⟨addr, mask, hn, _⟩ := hes e he
+    simp [entryFlowBad, hn]
+  simp [flowBad, this]
+
 /-- generic: announcements -/
 theorem UpdFamFp.check_reach_ok {p : Profile} {i : Input}
     (f : Fam) (nh : Nh) (attrs : List Attr) (es : List Entry) (U : UpdFamFp p i.loc i.rem (.reach f (some nh) attrs es))
@@ -20,7 +29,7 @@ theorem UpdFamFp.check_reach_ok {p : Profile} {i : Input}
     check i (run p i) = .ok ∧ ∃ n s dec, run p i = .obs n s dec .t := by
   apply U.check_ok hmsg es rfl hne hS hb henc hmaxF (by rw [hmsg]; rfl)
   · intro frames
-    simp only [opaqueClause, hmsg]
+    simp only [opaqueClause, hmsg, flowBad_ip f v6 es hes, Bool.false_eq_true, if_false]
     rw [opaqueRegion_ip v6 _ es hes]
   · intro frames
     have hps : chunksG U.Q U.N es =
@@ -43,7 +52,7 @@ theorem UpdFamFp.check_unreach_ok {p : Profile} {i : Input}
     check i (run p i) = .ok ∧ ∃ n s dec, run p i = .obs n s dec .t := by
   apply U.check_ok hmsg es rfl hne hS hb henc hmaxF (by rw [hmsg]; rfl)
   · intro frames
-    simp only [opaqueClause, hmsg]
+    simp only [opaqueClause, hmsg, flowBad_ip f v6 es hes, Bool.false_eq_true, if_false]
     rw [opaqueRegion_ip v6 _ es hes]
   · intro frames
     have hps : chunksG U.Q U.N es =
